@@ -199,7 +199,9 @@ func addTimedOutHandshakes(t *rapid.T, p *Plan, metas []*ClientMeta, n int) []*C
 	}
 	for ci := 0; ci < n; ci++ {
 		if drawBool(t, "afterstall", 60) {
-			p.Clients[ci].StartAfterDone = stallers
+			// (in addition to what the client already waits for: a resuming connection starts
+			// after the connection whose session it resumes)
+			p.Clients[ci].StartAfterDone = append(append([]int{}, p.Clients[ci].StartAfterDone...), stallers...)
 		}
 	}
 	return metas
